@@ -29,18 +29,22 @@ def hash_array(array: np.ndarray) -> int:
     Returns:
         Computed hash as an integer.
     """
+    # Arrays which compare equal elementwise must hash equal irrespective of their
+    # memory layout, data type and the sign of any zeros, therefore hash a canonical
+    # C-contiguous floating point copy of the values
+    canonical = np.ascontiguousarray(array, np.result_type(array, np.float64)) + 0.0
     if XXHASH_AVAILABLE:
         # If fast Python wrapper of fast xxhash implementation is available use
         # in preference to built in hash function
         h = xxhash.xxh64()
         # Update hash by viewing array as byte sequence - no copy required
-        h.update(array.view(np.byte).data)
-        # Also update hash by array dtype, shape and strides to avoid clashes
-        # between different views of same array
-        h.update(bytes(f"{array.dtype}{array.shape}{array.strides}", "utf-8"))
+        h.update(canonical.view(np.byte).data)
+        # Also update hash by array shape to avoid clashes between arrays with
+        # same values but different shapes
+        h.update(bytes(f"{canonical.shape}", "utf-8"))
         return h.intdigest()
     # Evaluate built-in hash function on *copy* of data as a byte sequence
-    return hash(array.tobytes())
+    return hash(canonical.tobytes())
 
 
 LOG_2: float = log(2.0)
